@@ -171,12 +171,20 @@ def impl(c):
         except Exception as e:
             ser_same = "raised " + type(e).__name__
     same = (o == fresh)
+    # ... and the serialisation, parsed as MSD, lists exactly the mapping's items (an SSC chart: NOTEDATA first, its note data last)
+    ser_items = None
+    if c["kind"] in ("sm", "ssc") or (c["kind"] == "sscchart" and any(k in ("NOTES", "NOTES2") for k, _ in items)):
+        from msdparser import parse_msd
+        try:
+            ser_items = [[x.key, None if len(x.components) == 1 else ":".join(x.components[1:])] for x in parse_msd(string=str(o))]
+        except Exception as e:
+            ser_items = "raised " + type(e).__name__
     ser_fields = None
     if c["kind"] == "smchart":
         from msdparser import parse_msd
         ps = list(parse_msd(string=str(o)))
         ser_fields = [x.strip() for x in ps[0].components[1:7]]
-    return {"results": rs, "items": items, "eq_fresh": same, "ser_fresh": ser_same, "ser_fields": ser_fields}
+    return {"results": rs, "items": items, "eq_fresh": same, "ser_fresh": ser_same, "ser_fields": ser_fields, "ser_items": ser_items}
 
 
 def enc_op(kind, op):
@@ -233,7 +241,19 @@ def model(c, ans):
     items = [[S(k), dval(v)] for k, v in mf]
     six = [dict((k, v) for k, v in items).get(k) for k in SIX] if c["kind"] == "smchart" else None
     return {"results": out, "items": items, "eq_fresh": True, "ser_fresh": True,
-            "ser_fields": [x.strip() for x in six] if six else None}
+            "ser_fields": [x.strip() for x in six] if six else None, "ser_items": expected_ser_items(c["kind"], items)}
+
+
+def expected_ser_items(kind, items):
+    if kind in ("sm", "ssc"):
+        return [list(it) for it in items]
+    if kind == "sscchart":
+        keys = [k for k, _ in items]
+        if "NOTES" not in keys and "NOTES2" not in keys:
+            return None
+        nk = "NOTES" if "NOTES" in keys else "NOTES2"
+        return [["NOTEDATA", ""]] + [list(it) for it in items if it[0] != nk] + [list(it) for it in items if it[0] == nk]
+    return None
 
 
 def oracle(c, o):
@@ -289,6 +309,9 @@ def oracle(c, o):
         return "final mapping %s differs from %s" % (o["items"], list(d.items()))
     if o["eq_fresh"] is not True or o["ser_fresh"] is not True:
         return "equality/serialisation do not see exactly the mapping's content (eq=%s ser=%s)" % (o["eq_fresh"], o["ser_fresh"])
+    want = expected_ser_items(kind, [[k, v] for k, v in d.items()])
+    if o.get("ser_items") != want:
+        return "the serialisation lists %s, the mapping holds %s" % (o.get("ser_items"), want)
     if kind == "smchart" and o["ser_fields"] != [(d[k] or "").strip() for k in SIX]:
         return "serialised chart fields %s are not the six fields in documented order" % (o["ser_fields"],)
     return None
